@@ -20,7 +20,18 @@ pub static RESULT_FD: std::sync::atomic::AtomicI32 = std::sync::atomic::AtomicI3
 pub fn step_bound(sc: &Scenario) -> usize {
     match sc.engine {
         Engine::Pool => 60_000 + sc.pool.as_ref().map(|p| 4_000 * p.size + 120 * p.tasks.len()).unwrap_or(0),
-        _ => 600_000 + 4_000 * sc.conns.len().min(400) + 300 * sc.conns.len(),
+        _ => {
+            // a response accepted k bytes at a time costs a few steps per piece
+            let pieces: usize = sc
+                .conns
+                .iter()
+                .map(|c| match c.faults.cuts {
+                    Cuts::Every(k) => 12 * (40_000 / k.max(1)),
+                    _ => 0,
+                })
+                .sum();
+            600_000 + 4_000 * sc.conns.len().min(400) + 300 * sc.conns.len() + pieces
+        }
     }
 }
 
